@@ -442,41 +442,7 @@ func registerMoreIntrinsics() {
 		return Tuple{x.strConst(pos.Filename), x.f.Const(64, uint64(pos.Line))}
 	}
 	in["runtime.Gosched"] = func(fr *frame, a []Value) Value { fr.x.yield(fr, "Gosched"); return nil }
-	// base64 (StdEncoding only: padded): the output region is filled with bytes that are
-	// uninterpreted functions of (input bytes, position) constrained to the base64 alphabet
-	// class "printable, no quote/backslash" (one representative letter range).
-	in["(*encoding/base64.Encoding).EncodedLen"] = func(fr *frame, a []Value) Value {
-		x := fr.x
-		n := x.asInt(fr, a[1], "EncodedLen")
-		return x.f.Const(64, uint64((n+2)/3*4))
-	}
-	in["(*encoding/base64.Encoding).Encode"] = func(fr *frame, a []Value) Value {
-		x := fr.x
-		dst := a[1].(Slice)
-		src := x.bytesOf(a[2])
-		n := (len(src) + 2) / 3 * 4
-		if len(dst.v) < n {
-			x.runtimePanic(fr, "index out of range (base64 Encode destination too short)")
-		}
-		for i := 0; i < n; i++ {
-			args := append([]*Term{x.f.Const(8, uint64(i))}, src...)
-			u := x.f.UF(fmt.Sprintf("b64_%d", len(src)), 8, args...)
-			dst.v[i] = x.f.Bin(OpAdd, x.f.Const(8, 'A'), x.f.Bin(OpURem, u, x.f.Const(8, 26)))
-		}
-		return nil
-	}
-	in["(*encoding/base64.Encoding).EncodeToString"] = func(fr *frame, a []Value) Value {
-		x := fr.x
-		src := x.bytesOf(a[1])
-		n := (len(src) + 2) / 3 * 4
-		out := make([]*Term, n)
-		for i := 0; i < n; i++ {
-			args := append([]*Term{x.f.Const(8, uint64(i))}, src...)
-			u := x.f.UF(fmt.Sprintf("b64_%d", len(src)), 8, args...)
-			out[i] = x.f.Bin(OpAdd, x.f.Const(8, 'A'), x.f.Bin(OpURem, u, x.f.Const(8, 26)))
-		}
-		return Str{out}
-	}
+	// encoding/base64 is executed from its real SSA (its package initialiser builds the alphabets)
 }
 
 // runtime.Caller over the interpreter's own frame stack. Synthetic wrappers ($bound, $thunk,
